@@ -203,7 +203,7 @@ def p_dbg(pool, depth):
 def p_c01(q):
     if q:
         return [mc_router('T'), gen_bfs('A', 2, sample=0.35), gen_bfs('B', 1), gen_sim('A', 8, 12), gogen('bytes', 60)]
-    return [mc_router('T'), mc_router('C', 'routerC'), gen_bfs('A', 2), gen_bfs('B', 2), gen_bfs('C', 2), gen_bfs('X', 2, sample=0.3),
+    return [mc_router('T'), mc_router('M', 'routerM'), gen_bfs('A', 2), gen_bfs('B', 2), gen_bfs('C', 2), gen_bfs('X', 2, sample=0.3),
             gen_sim('A', 12, 60), gen_sim('B', 12, 40, seedoff=1), gogen('bytes', 1500), gogen('mixed', 800, seedoff=1)]
 
 
@@ -216,21 +216,22 @@ def p_c02(q):
 
 def p_c03(q):
     if q:
-        return [mc_router('T'), gen_bfs('B', 2, sample=0.25), gen_bfs('C', 2, sample=0.5), gen_bfs('X', 1), gen_sim('B', 8, 10), gogen('mixed', 40)]
-    return [mc_router('T'), mc_router('C', 'routerC'), gen_bfs('A', 2), gen_bfs('B', 2), gen_bfs('C', 2), gen_bfs('X', 2, sample=0.3),
+        return [mc_router('T'), gen_bfs('B', 2, sample=0.2), gen_bfs('C', 2, sample=0.4), gen_bfs('X', 2, sample=0.05), gen_bfs('R', 5), gen_bfs('A', 2, sample=0.15),
+                gen_sim('B', 8, 10), gogen('mixed', 40)]
+    return [mc_router('T'), mc_router('M', 'routerM'), gen_bfs('A', 2), gen_bfs('B', 2), gen_bfs('C', 2), gen_bfs('X', 2, sample=0.3), gen_bfs('R', 6),
             gen_sim('A', 14, 60), gen_sim('B', 14, 60, seedoff=1), gen_sim('C', 14, 40, seedoff=2), gogen('mixed', 1500)]
 
 
 def p_c04(q):
     if q:
         return [mc_router('T'), gen_bfs('C', 2), gen_bfs('X', 2, sample=0.08), gen_sim('C', 8, 10)]
-    return [mc_router('T'), mc_router('C', 'routerC'), gen_bfs('C', 3, sample=0.4), gen_bfs('X', 2, sample=0.4), gen_bfs('A', 2, sample=0.5),
+    return [mc_router('T'), mc_router('M', 'routerM'), gen_bfs('C', 3, sample=0.4), gen_bfs('X', 2, sample=0.4), gen_bfs('A', 2, sample=0.5),
             gen_sim('C', 14, 80), gogen('mixed', 1000)]
 
 
 def p_c05(q):
     if q:
-        return [mc_router('T'), gen_bfs('X', 2, sample=0.08), gen_bfs('B', 2, sample=0.15), gogen('bytes', 100), gogen('patterns', 1500, seedoff=2),
+        return [mc_router('T'), gen_bfs('X', 2, sample=0.08), gen_bfs('B', 2, sample=0.15), gen_bfs('R', 5), gen_bfs('A', 2, sample=0.2), gogen('bytes', 100), gogen('patterns', 1500, seedoff=2),
                 gogen('patenum4', 0, name='go-patenum4'), gogen('bytes', 60, fam='match', trace='Trace_Match', seedoff=3), gogen('bytes', 40, fam='group', trace='Trace_Group', seedoff=4)] + cors_stages(0.06, 0)[1:]
     return [mc_router('T'), gen_bfs('X', 2, sample=0.5), gen_bfs('B', 2), gen_bfs('A', 2, sample=0.5), gogen('bytes', 3000), gogen('mixed', 1000, seedoff=1),
             gogen('patterns', 30000, seedoff=2), gogen('patenum6', 0, name='go-patenum6'), gogen('bytes', 1500, fam='match', trace='Trace_Match', seedoff=3), gogen('bytes', 1000, fam='group', trace='Trace_Group', seedoff=4)] + cors_stages(0.5, 0)[1:]
@@ -246,7 +247,7 @@ def p_c17(q):
 def p_c10(q):
     if q:
         return [mc_router('T'), gen_bfs('U', 1, module='MC_RouterU', urls='UrlProbesU', rt=True), gen_bfs('A', 1, rt=True), gen_sim('A', 6, 6, rt=True)]
-    return [mc_router('T'), mc_router('C', 'routerC'), gen_bfs('U', 1, module='MC_RouterU', urls='UrlProbesU', rt=True), gen_bfs('A', 2, rt=True, sample=0.5),
+    return [mc_router('T'), mc_router('M', 'routerM'), gen_bfs('U', 1, module='MC_RouterU', urls='UrlProbesU', rt=True), gen_bfs('A', 2, rt=True, sample=0.5),
             gen_bfs('B', 1, rt=True), gen_sim('A', 12, 40, rt=True)]
 
 
@@ -272,7 +273,7 @@ def p_c09(q):
 def p_c18(q):
     if q:
         return [mc_router('T'), gen_bfs('C', 2, th='StdTH', sample=0.6), gen_bfs('X', 2, sample=0.1), gogen('mixed', 40)]
-    return [mc_router('T'), mc_router('C', 'routerC'), gen_bfs('C', 2, th='StdTH'), gen_bfs('X', 2, sample=0.5), gen_bfs('F', 2, module='MC_RouterF', sample=0.3),
+    return [mc_router('T'), mc_router('M', 'routerM'), gen_bfs('C', 2, th='StdTH'), gen_bfs('X', 2, sample=0.5), gen_bfs('F', 2, module='MC_RouterF', sample=0.3),
             gen_sim('C', 12, 60), gogen('mixed', 1000)]
 
 
